@@ -1339,3 +1339,8 @@ C13_FRONTEND_PRESERVING += [
 UNDECIDED += [
     ('u13-reg-suppress-valueerror-only', ['C13'], [(A, "import abc\n", "import abc\nimport contextlib\n"), (A, _REG_TRY, "    with contextlib.suppress(ValueError):\n        reg = int(reg, base=0)\n")]),
 ]
+# ---- round 7 (white-box audit): compression relation, pseudo-instruction templates, eval_immediate ----
+from .variants_comprel import BREAKING as _CR_BREAKING, PRESERVING as _CR_PRESERVING, UNDECIDED as _CR_UNDECIDED  # noqa: E402
+BREAKING += _CR_BREAKING
+PRESERVING += _CR_PRESERVING
+UNDECIDED += _CR_UNDECIDED
